@@ -33,7 +33,8 @@ func (p *Program) inSweep(f *ssa.Function) bool {
 	for root.Parent() != nil {
 		root = root.Parent()
 	}
-	if notSwept[p.Names[root]] {
+	if notSwept[p.Names[root]] && !(p.Names[root] == "init" && f != root) {
+		// (function literals of package-level initialisers run in the evaluation phase: swept)
 		return false
 	}
 	return evalPhaseFiles[p.fileOf(f)]
@@ -133,6 +134,19 @@ func (p *Program) verifyFunction(name string, tier string, prop string, sink fun
 			v := x.load(s, binds[i], et, false)
 			x.assumeLoaded(s, v, et)
 			x.assumeEntryAllocated(s, binds[i], v, et)
+		}
+	}
+	// the context cursor of an iterator parameter is an existing navigator object
+	if x.fnc != nil && x.fnc.Theory {
+		for i, prm := range f.Params {
+			if typeStr(prm.Type()) != "iterator" {
+				continue
+			}
+			env := &specEnv{x: x, s: s, where: "entry cursor", vars: map[string]sval{"t": {v: args[i], typ: prm.Type()}}}
+			if cv, err := env.evalVal("cur(t)"); err == nil {
+				s.assume(Implies(Not(Eq(args[i].T, T{"inil", SIface})), Not(Eq(cv.v.T, T{"inil", SIface}))))
+				x.assumeIfaceInv(s, cv.v.T, p.lookupType("NodeNavigator"))
+			}
 		}
 	}
 	if name == "init" {
@@ -324,6 +338,31 @@ func (x *Exec) atReturn(s *State, f *ssa.Function, fc, fieldC *FuncContract, arg
 		if i < len(binds) {
 			fr.addrs[fv.Name()] = binds[i]
 			fr.env[fv] = binds[i]
+		}
+	}
+	if lf := s.lastFrame; lf != nil && lf.fn == f {
+		// locals keep the value they had when the function returned
+		isParam := map[string]bool{}
+		for _, prm := range f.Params {
+			isParam[prm.Name()] = true
+		}
+		for _, fv := range f.FreeVars {
+			isParam[fv.Name()] = true
+		}
+		for n, v := range lf.names {
+			if !isParam[n] {
+				fr.names[n] = v
+			}
+		}
+		for n, v := range lf.addrs {
+			if !isParam[n] {
+				fr.addrs[n] = v
+			}
+		}
+		for v, val := range lf.env {
+			if _, ok := fr.env[v]; !ok {
+				fr.env[v] = val
+			}
 		}
 	}
 	s.frames = append(s.frames, fr)
